@@ -617,7 +617,7 @@ var spec = &hx.Spec[Case]{
 	Gen:         genCase,
 	Run:         run,
 	Journal:     true,
-	Watchdog:    hx.Pick(120*time.Second, 900*time.Second),
+	Watchdog:    hx.Pick(120*time.Second, 1800*time.Second),
 }
 
 func TestMain(m *testing.M) { hx.Main(m) }
@@ -684,9 +684,9 @@ func TestBig(t *testing.T) {
 	}
 	if hx.Thorough() {
 		cases = append(cases,
-			Case{Pieces: []gen.Piece{{Kind: "const", Len: 40 * mib, B: 0x5a}, {Kind: "rand", Len: mib, Seed: 9}},
+			Case{Pieces: []gen.Piece{{Kind: "const", Len: 34 * mib, B: 0x5a}, {Kind: "rand", Len: mib, Seed: 9}},
 				Sizes: gen.Sizes{Min: 2 << 20, Avg: 8 << 20, Max: 32 << 20}, Ns: []int{1, 3}, Perturb: [][]int{{0}}, StreamN: 1, SHA256: true},
-			Case{Pieces: []gen.Piece{{Kind: "rand", Len: 30 * mib, Seed: 11}},
+			Case{Pieces: []gen.Piece{{Kind: "rand", Len: 24 * mib, Seed: 11}},
 				Sizes: gen.Sizes{Min: 9 << 20, Avg: 9 << 20, Max: 9<<20 + 1}, Ns: []int{1, 4}, Perturb: [][]int{{0}}, StreamN: 3})
 	}
 	for _, c := range cases {
